@@ -171,6 +171,9 @@ func runC02(c *Ctx, r *Report) {
 	}
 	// ---- R7 ---------------------------------------------------------------------------------------------
 	c02ScratchEscape(c, r)
+	if ok, why, pos := stringArm(c); true {
+		r.check(ok, "C02-R9-string-arm", "parseFitField/string-arm", pos, why, "a string field does not decode to the wire bytes before the first 0x00 inside the field: "+why)
+	}
 	// ---- R8 ---------------------------------------------------------------------------------------------
 	c02Widening(c, r)
 }
@@ -229,6 +232,27 @@ func c02SkipBySize(c *Ctx, r *Report) {
 		return
 	}
 	n := 0
+	sections := map[string]*ssa.BasicBlock{}
+	defer func() {
+		// both sections are entered before every success return: no path reports success for a record
+		// without having walked its field definitions and its developer field descriptions
+		for _, what := range []string{"field", "developer field"} {
+			h := sections[what]
+			if h == nil {
+				r.fail("C02-R5-skip-by-size", "parseDataFields/"+what+"-section", c.pos(fn.Pos()), "no loop consuming the "+what+" section was recognised")
+				continue
+			}
+			bad := ""
+			nret := 0
+			for _, ret := range c.successReturns(fn) {
+				nret++
+				if !h.Dominates(ret.Block()) {
+					bad = c.pos(ret.Pos())
+				}
+			}
+			r.check(bad == "" && nret > 0, "C02-R5-skip-by-size", "parseDataFields/"+what+"-section-on-every-success-path", c.pos(fn.Pos()), "every success return is behind the loop over the "+what+" section", "parseDataFields reports success at "+bad+" on a path that never enters the loop consuming the "+what+" section: those bytes stay in the stream and are parsed as the next record")
+		}
+	}()
 	for _, ci := range allCalls(fn) {
 		f := ci.Common().StaticCallee()
 		if f == nil || f.Name() != "readFull" {
@@ -283,6 +307,9 @@ func c02SkipBySize(c *Ctx, r *Report) {
 		what := "field"
 		if isDev {
 			what = "developer field"
+		}
+		if hdr != nil && (isField || isDev) {
+			sections[what] = hdr
 		}
 		r.check(okArg && okDom, "C02-R5-skip-by-size", key, c.pos(ci.Pos()), "every "+what+" iteration consumes exactly the definition's size before continuing", fmt.Sprintf("%s data is not consumed by exactly its definition size in every iteration (argument %s, executed on every iteration: %v): unknown or skipped fields shift all following fields", what, arg, okDom))
 	}
@@ -339,7 +366,9 @@ func c02ScratchEscape(c *Ctx, r *Report) {
 							switch f.String() {
 							case "io.ReadFull", "(*" + modPath + ".decoder).readFull", "(encoding/binary.littleEndian).Uint16", "(encoding/binary.littleEndian).Uint32", "(encoding/binary.littleEndian).Uint64", "(encoding/binary.bigEndian).Uint16", "(encoding/binary.bigEndian).Uint32", "(encoding/binary.bigEndian).Uint64":
 							default:
-								bad = "passed to " + f.String()
+								if !scalarReader(f) {
+									bad = "passed to " + f.String()
+								}
 							}
 						} else {
 							bad = "passed to an indirect call"
@@ -492,4 +521,28 @@ func c02Widening(c *Ctx, r *Report) {
 	} else {
 		r.undecided("C02-R8-widening", "parseDataFields/big-endian-right-align", c.pos(padIf.Pos()), fmt.Sprintf("big-endian widening is not the recognised form (only for non-native kinds: %v, overlap-safe copy to the tail: %v, zeroed head: %v); parseFitField reads native fields at offset 0 with the definition's width, so shifting them breaks every narrow big-endian native field", okKind, okCopy, okZero))
 	}
+}
+
+// scalarReader: a function of package bytes or unicode/utf8 all of whose results are scalars
+// (int, bool, rune): it can neither retain nor hand back an alias of a byte slice argument.
+func scalarReader(f *ssa.Function) bool {
+	if f.Pkg == nil {
+		return false
+	}
+	switch f.Pkg.Pkg.Path() {
+	case "bytes", "unicode/utf8":
+	default:
+		return false
+	}
+	res := f.Signature.Results()
+	if res.Len() == 0 {
+		return false
+	}
+	for i := 0; i < res.Len(); i++ {
+		b, ok := res.At(i).Type().Underlying().(*types.Basic)
+		if !ok || b.Info()&(types.IsInteger|types.IsBoolean) == 0 {
+			return false
+		}
+	}
+	return true
 }
